@@ -299,6 +299,116 @@ pub fn t4(prop: &str, seed: u64) -> RunDesc {
     d
 }
 
+/// T7: weak increments from zero — the object is already destructed and only weak owners keep
+/// its block; the last of them is released inside a reader's critical section, after which
+/// the reader re-counts from its WeakSnapshot (racing the pending try_dealloc).
+pub fn t7(prop: &str, seed: u64) -> RunDesc {
+    let mut rng = Rng::new(seed);
+    let mut d = base(&mut rng, prop, "dir-t7", seed, 4);
+    let strong_alive = rng.chance(0.25);
+    let mut setup = vec![o(K::New, 1, NONE_SLOT, 2, 0), o(K::Pin, 0, 0, 0, 0), o(K::Downgrade, 1, 0, 0, 0), o(K::StoreW, WROOT0, 0, 0, 0)];
+    if rng.chance(0.5) {
+        setup.extend([o(K::Downgrade, 1, 1, 0, 0), o(K::StoreW, 10, 1, 0, 0)]);
+    }
+    if strong_alive {
+        setup.push(o(K::Store, ROOT0, 1, 0, 0));
+    }
+    setup.push(o(K::Unpin, 0, 0, 0, 0));
+    d.threads.push(thread(0, "setup", setup));
+    // let the object be destructed (unless kept alive) while the weak owners keep the block;
+    // or (pending variant) retire it only k rounds before the readers pin, so that its
+    // destruction runs *inside* their critical sections
+    let pending = strong_alive && rng.chance(0.7);
+    if pending {
+        let mut pre = rounds(rng.below(3) as usize);
+        pre.extend([o(K::Pin, 0, 0, 0, 0), o(K::Store, ROOT0, NONE_SLOT, 0, 0), o(K::Flush, 0, 0, 0, 0), o(K::Unpin, 0, 0, 0, 0)]);
+        pre.extend(rounds(rng.below(4) as usize));
+        d.threads.push(thread(1, "pre-retire", pre));
+    } else {
+        d.threads.push(thread(1, "age", rounds(3 + rng.below(6) as usize)));
+    }
+    let nreaders = 1 + rng.below(2) as usize;
+    for r in 0..nreaders {
+        let mut v = vec![o(K::Pin, 0, 0, 0, 0), o(K::LoadW, if rng.chance(0.8) { WROOT0 } else { 10 }, 0, 0, 0), o(K::Signal, 1 + r as u32, 0, 0, 0), o(K::Await, 4, 0, 0, 0)];
+        for _ in 0..1 + rng.below(3) {
+            match rng.below(5) {
+                0 => v.extend([o(K::WsCounted, 0, 0, 0, 0), o(K::DropW, 0, 0, 0, 0)]),
+                1 => v.extend([o(K::WsCounted, 0, 0, 0, 0), o(K::CloneW, 0, 1, 0, 0), o(K::DropW, 0, 0, 0, 0), o(K::DropW, 1, 0, 0, 0)]),
+                2 => v.extend([o(K::WsCounted, 0, 0, 0, 0), o(K::Upgrade, 0, 2, 0, 0), o(K::DropRc, 2, 0, 0, 0), o(K::DropW, 0, 0, 0, 0)]),
+                3 => v.extend([o(K::WsUpgrade, 0, 1, 0, 0)]),
+                _ => v.extend([o(K::WsCounted, 0, 2, 0, 0)]), // kept until after the critical section
+            }
+        }
+        v.push(o(K::Unpin, 0, 0, 0, 0));
+        v.extend(rounds(1 + rng.below(6) as usize));
+        // a Weak that survived the critical section must still own the block
+        v.extend([o(K::Upgrade, 2, 3, 0, 0), o(K::DropRc, 3, 0, 0, 0), o(K::CloneW, 2, 3, 0, 0), o(K::DropW, 3, 0, 0, 0)]);
+        v.extend(rounds(rng.below(4) as usize));
+        v.push(o(K::DropW, 2, 0, 0, 0));
+        d.threads.push(thread(2, "reader", v));
+    }
+    let mut w = vec![o(K::Await, 1, 0, 0, 0), o(K::Pin, 0, 0, 0, 0), o(K::StoreW, WROOT0, NONE_SLOT, 0, 0), o(K::StoreW, 10, NONE_SLOT, 0, 0)];
+    if strong_alive {
+        w.push(o(K::Store, ROOT0, NONE_SLOT, 0, 0));
+    }
+    w.extend([o(K::Flush, 0, 0, 0, 0), o(K::Unpin, 0, 0, 0, 0), o(K::Signal, 4, 0, 0, 0)]);
+    w.extend(rounds(2 + rng.below(6) as usize));
+    d.threads.push(thread(2, "writer", w));
+    if rng.chance(0.5) {
+        d.threads.push(thread(2, "ticker", rounds(2 + rng.below(6) as usize)));
+    }
+    d.params = J::obj().set("template", "T7 weak increment from zero").set("readers", nreaders).set("strong_alive", strong_alive);
+    d
+}
+
+/// T8: a reader keeps a Snapshot under an outer guard while inner guards come, are reactivated
+/// (which must be a no-op for the critical section) and go, and the object is unlinked and the
+/// clock driven by others.
+pub fn t8(prop: &str, seed: u64) -> RunDesc {
+    let mut rng = Rng::new(seed);
+    let mut d = base(&mut rng, prop, "dir-t8", seed, 4);
+    let via_parent = rng.chance(0.4);
+    d.threads.push(thread(0, "setup", setup_parent_child(true, true)));
+    d.threads.push(thread(1, "age", rounds(rng.below(5) as usize)));
+    let mut r = vec![o(K::Pin, 0, 0, 0, 0)];
+    if via_parent {
+        r.extend([o(K::Load, ROOT1, 0, 1, 0), o(K::Load, snap_field(1, 0), 0, 0, 0)]);
+    } else {
+        r.push(o(K::Load, ROOT0, 0, 0, 0));
+    }
+    r.extend([o(K::DerefSnap, 0, 0, 0, 0), o(K::Signal, 1, 0, 0, 0)]);
+    let k = 3 + rng.below(6);
+    for i in 0..k {
+        match rng.below(6) {
+            0 | 1 => r.extend([o(K::Pin, 1, 0, 0, 0), o(K::Reactivate, 1, 0, 0, 0), o(K::Unpin, 1, 0, 0, 0)]),
+            2 => r.extend([o(K::Pin, 1, 0, 0, 0), o(K::ReactAfter, 1, rng.below(4) as u32, 0, 0), o(K::Unpin, 1, 0, 0, 0)]),
+            3 => r.extend([o(K::Pin, 1, 0, 0, 0), o(K::Pin, 2, 0, 0, 0), o(K::Reactivate, 2, 0, 0, 0), o(K::Unpin, 1, 0, 0, 0), o(K::Unpin, 2, 0, 0, 0)]),
+            4 => r.extend([o(K::New, 3, NONE_SLOT, 0, 0), o(K::DropRc, 3, 0, 0, 0)]),
+            _ => r.extend([o(K::Pin, 1, 0, 0, 0), o(K::Flush, 1, 0, 0, 0), o(K::Unpin, 1, 0, 0, 0)]),
+        }
+        if i < 6 {
+            r.push(o(K::Await, 10 + i as u32, 0, 0, 0));
+        }
+        r.push(o(K::DerefSnap, 0, 0, 0, 0));
+    }
+    r.extend([o(K::Await, 5, 0, 0, 0), o(K::DerefSnap, 0, 0, 0, 0), o(K::Unpin, 0, 0, 0, 0)]);
+    d.threads.push(thread(2, "reader", r));
+    let mut w = vec![o(K::Await, 1, 0, 0, 0), o(K::Pin, 0, 0, 0, 0), o(K::Store, ROOT0, NONE_SLOT, 0, 0), o(K::Store, ROOT1, NONE_SLOT, 0, 0), o(K::StoreW, WROOT0, NONE_SLOT, 0, 0), o(K::Flush, 0, 0, 0, 0), o(K::Unpin, 0, 0, 0, 0)];
+    for i in 0..8u32 {
+        w.extend(rounds(1));
+        if i < 6 {
+            w.push(o(K::Signal, 10 + i, 0, 0, 0));
+        }
+    }
+    w.push(o(K::Signal, 5, 0, 0, 0));
+    d.threads.push(thread(2, "writer", w));
+    if rng.chance(0.5) {
+        d.threads.push(thread(2, "ticker", rounds(2 + rng.below(6) as usize)));
+    }
+    d.params = J::obj().set("template", "T8 snapshot under an outer guard across inner reactivations").set("via_parent", via_parent).set("inner_steps", k);
+    d
+}
+
 /// T5: clock wrap — no collection of the interesting objects while stamps age past 16 / 32
 /// epochs, then the T2 choreography.
 pub fn t5(prop: &str, seed: u64) -> RunDesc {
